@@ -117,7 +117,15 @@ def ocean_floor(
 
     # The name of all the relevant _dimensions_, not _coordinates_
     depth_dimensions = utils.dimensions_from_coords(dataset, depth_coordinates)
-    non_spatial_dimensions = utils.dimensions_from_coords(dataset, non_spatial_variables)
+    # A non-spatial coordinate that has already been selected from,
+    # for example with `dataset.isel(time=0)`, is a scalar.
+    # It has no dimension left that needs to be set aside.
+    non_spatial_dimensions = utils.dimensions_from_coords(dataset, [
+        coordinate for coordinate in (
+            utils.name_to_data_array(dataset, variable)
+            for variable in non_spatial_variables)
+        if coordinate.ndim > 0
+    ])
 
     for depth_dimension in sorted(depth_dimensions, key=hash):
         dimension_sets: dict[frozenset[Hashable], list[Hashable]] = defaultdict(list)
